@@ -3,10 +3,13 @@ package h
 import (
 	"context"
 	"fmt"
+	"github.com/MinterTeam/minter-go-node/tree"
+	"math/big"
 	"math/rand"
 	"os"
 	"path/filepath"
 	"runtime"
+	"runtime/debug"
 	"sort"
 	"strings"
 	"sync"
@@ -25,16 +28,16 @@ var c25Kinds = []string{"Address", "Addresses", "Candidate", "Candidates", "Coin
 	"LimitOrdersOfPool", "BestTrade", "EstimateCoinSell", "EstimateCoinBuy", "EstimateCoinSellAll", "Frozen", "WaitList", "Export", "Accessors"}
 
 type c25Load struct {
-	svc     *service.Service
-	s       *Sim
-	stop    int32
-	phase   atomic.Value // string
-	wg      sync.WaitGroup
-	mu      sync.Mutex
-	overlap map[string]int64 // query kind x execution phase observed
-	calls   map[string]int64
-	panics  map[string]int64 // recovered handler panics (grpc_recovery would do the same): counted, not judged
-	running int32
+	svc       *service.Service
+	s         *Sim
+	stop      int32
+	phase     atomic.Value // string
+	wg        sync.WaitGroup
+	mu        sync.Mutex
+	overlap   map[string]int64 // query kind x execution phase observed
+	calls     map[string]int64
+	panics    map[string]int64 // recovered handler panics (grpc_recovery would do the same): counted, not judged
+	running   int32
 	committed int64 // last committed height (for queries at a height)
 }
 
@@ -64,11 +67,51 @@ func c25QueryLoop(l *c25Load, r *rand.Rand, universe *c25Universe) {
 	}
 }
 
+// c25CommitBurst is an API client that waits for the commit phase and then walks the order books of all pools until the
+// commit is over (lead: added after a history at seed 4 showed that a reader between the swap module's commit and the
+// switch to the new tree version left a stale order list behind; random queries hit that window about once in 100 histories).
+func c25CommitBurst(l *c25Load, r *rand.Rand, u *c25Universe) {
+	defer l.wg.Done()
+	atomic.AddInt32(&l.running, 1)
+	defer atomic.AddInt32(&l.running, -1)
+	ctx := context.Background()
+	for atomic.LoadInt32(&l.stop) == 0 {
+		if p, _ := l.phase.Load().(string); p != "commit" || len(u.pools) == 0 {
+			time.Sleep(20 * time.Microsecond)
+			continue
+		}
+		n := int64(0)
+		for {
+			if p, _ := l.phase.Load().(string); p != "commit" || atomic.LoadInt32(&l.stop) != 0 {
+				break
+			}
+			pl := u.pools[r.Intn(len(u.pools))]
+			if r.Intn(2) == 0 {
+				pl[0], pl[1] = pl[1], pl[0]
+			}
+			func() {
+				defer func() { recover() }()
+				_, _ = l.svc.LimitOrdersOfPool(ctx, &pb.LimitOrdersOfPoolRequest{SellCoin: pl[0], BuyCoin: pl[1], Limit: 20})
+			}()
+			n++
+		}
+		l.mu.Lock()
+		l.calls["LimitOrdersOfPool(commit burst)"] += n
+		if n > 0 {
+			l.overlap["LimitOrdersOfPool(commit burst) x commit"]++
+		}
+		l.mu.Unlock()
+	}
+}
+
+// c25Hook is nil in the registered check (used by experiments on scratch copies of the repository).
+var c25Hook func(l *c25Load, u *c25Universe)
+
 type c25Universe struct {
-	addrs []string
-	pubs  []string
-	coins []uint64
-	pools [][2]uint64
+	addrs    []string
+	pubs     []string
+	coins    []uint64
+	pools    [][2]uint64
 	maxOrder uint64
 }
 
@@ -107,6 +150,9 @@ func c25QueryOnce(l *c25Load, r *rand.Rand, u *c25Universe, kind string) (perr s
 			perr = firstLine(fmt.Sprint(x))
 			if len(perr) > 80 {
 				perr = perr[:80]
+			}
+			if !strings.Contains(perr, "Value missing for hash") {
+				perr += " @ " + repoFrames(string(debug.Stack()), 4)
 			}
 		}
 	}()
@@ -370,6 +416,12 @@ func c25Run(ctx *WorkCtx, idx int, race bool) {
 	}
 	sc := StdScenario(idx, r, blocks)
 	sc.Spec.Orders = 4 + r.Intn(8)
+	if idx%2 == 1 {
+		// state store with the write latency of a disk (1-3 ms per batch): the commit, and with it the time between the
+		// modules' commits and the switch to the new tree version, lasts long enough for concurrent readers to run inside it
+		sc.Opts.Wrap = SlowWrap(time.Duration(1+r.Intn(3)) * time.Millisecond)
+		ctx.Res.Seen("state store with disk-like write latency")
+	}
 	shadow := &MonShadow{Prop: "C25", Rule: "execution-differs-under-query-load", Res: ctx.Res}
 	s, d := sc.Build("C25", ctx.Seed, idx, r, shadow)
 	d.MaxTxs = 10
@@ -395,6 +447,43 @@ func c25Run(ctx *WorkCtx, idx int, race bool) {
 	for q := 0; q < nq; q++ {
 		load.wg.Add(1)
 		go c25QueryLoop(load, Rng(ctx.Seed, "C25q", idx*100+q), u)
+	}
+	load.wg.Add(1)
+	go c25CommitBurst(load, Rng(ctx.Seed, "C25burst", idx), u)
+	if c25Hook != nil {
+		c25Hook(load, u)
+	}
+	if idx%2 == 0 {
+		// a reader placed deterministically INSIDE every commit of the observed instance (hook tree.VerifInCommit: all modules have
+		// written their changes, the new version is not readable yet): walks the order books of all pools and issues a batch of the
+		// other queries. Whatever such a reader loads into the shared caches must not change what the next blocks execute.
+		hr := Rng(ctx.Seed, "C25incommit", idx)
+		tree.VerifInCommit = func() {
+			if p, _ := load.phase.Load().(string); p != "commit" {
+				return // a commit of the undisturbed shadow instance
+			}
+			bg := context.Background()
+			for _, pl := range u.pools {
+				for k := 0; k < 2; k++ {
+					func() {
+						defer func() { recover() }()
+						_, _ = load.svc.LimitOrdersOfPool(bg, &pb.LimitOrdersOfPoolRequest{SellCoin: pl[k], BuyCoin: pl[1-k], Limit: 50})
+					}()
+				}
+			}
+			for k := 0; k < 24; k++ {
+				kind := c25Kinds[hr.Intn(len(c25Kinds))]
+				if kind == "Export" {
+					continue
+				}
+				_ = c25QueryOnce(load, hr, u, kind)
+			}
+			load.mu.Lock()
+			load.calls["reader inside the commit window"]++
+			load.overlap["reader inside the commit window x commit"]++
+			load.mu.Unlock()
+		}
+		defer func() { tree.VerifInCommit = nil }()
 	}
 	done := make(chan struct{})
 	go c25Exec(d, sc.Blocks, done)
@@ -441,6 +530,9 @@ func c25Run(ctx *WorkCtx, idx int, race bool) {
 	}
 	for k, v := range load.panics {
 		ctx.Res.Count("recovered_handler_panics", v)
+		if !strings.Contains(k, "Value missing for hash") {
+			ctx.Res.Count("handler_panic/"+k, v)
+		}
 		if len(ctx.Res.Notes) < 20 {
 			ctx.Res.Notes = append(ctx.Res.Notes, "recovered handler panic (not judged): "+k)
 		}
@@ -463,7 +555,28 @@ func c25Run(ctx *WorkCtx, idx int, race bool) {
 
 // c25Exec is the block execution goroutine (its name is what the hang detector and the race classifier look for).
 func c25Exec(d *Driver, blocks int, done chan struct{}) {
-	d.Run(blocks)
+	for i := 0; i < blocks && !d.S.Dead && !d.S.Stopped; i++ {
+		// most blocks contain one deep trade (7-30 % of a reserve) through a pool that has limit orders: execution then depends
+		// on the whole order book of that pool, not only on its best order (lead: added when stale order lists left behind by
+		// readers during Commit turned out to change results only for trades reaching beyond the first orders)
+		if ps := d.S.Post.Pools; len(ps) > 0 && d.R.Intn(10) < 6 {
+			var with []int
+			for k := range ps {
+				if len(ps[k].Orders) > 0 {
+					with = append(with, k)
+				}
+			}
+			if len(with) > 0 {
+				p := ps[with[d.R.Intn(len(with))]]
+				from, to, res := types.CoinID(p.Coin0), types.CoinID(p.Coin1), BI(p.Reserve0)
+				if d.R.Intn(2) == 0 {
+					from, to, res = to, from, BI(p.Reserve1)
+				}
+				d.G.aim = &aimedTrade{route: []types.CoinID{from, to}, amount: res.Div(res, big.NewInt(int64(3+d.R.Intn(12))))}
+			}
+		}
+		d.Block()
+	}
 	close(done)
 }
 
@@ -479,17 +592,43 @@ func c25Death(total *WorkerResult, from, to, code int, tail, logf string) {
 }
 
 func init() {
-	Register(&CheckDef{ID: "C25race", Level: "exploration", Quick: 8, Thorough: 280, Binary: "vchk.race", Batch: 1, WatchdogS: 1500,
+	Register(&CheckDef{ID: "C25race", Level: "exploration", Quick: 8, Thorough: 80, Binary: "vchk.race", Batch: 1, WatchdogS: 1500,
 		Env:          []string{"GORACE=halt_on_error=0 exitcode=0 log_path={TMP}/race"},
 		Run:          func(ctx *WorkCtx, idx int) { c25Run(ctx, idx, true) },
 		OnChildDeath: c25Death})
-	Register(&CheckDef{ID: "C25plain", Level: "exploration", Quick: 28, Thorough: 840, Batch: 2, WatchdogS: 1500,
+	Register(&CheckDef{ID: "C25plain", Level: "exploration", Quick: 28, Thorough: 280, Batch: 2, WatchdogS: 1500,
 		Run:          func(ctx *WorkCtx, idx int) { c25Run(ctx, idx+1000, false) },
 		OnChildDeath: c25Death})
 	Register(&CheckDef{
 		ID: "C25", Level: "exploration", Parts: []string{"C25race", "C25plain"},
-		Rule: "one case = one generated history (pool creation, orders added/filled/cancelled, delegations, stake recalculation, coin creation, commits) executed on one goroutine while 6-24 goroutines issue read-only API queries (17 kinds: Address(es), Candidate(s), CoinInfo, SwapPool(s), LimitOrders, LimitOrdersOfPool, BestTrade route search, the three estimates, Frozen, WaitList, Export, raw accessors) on the live state, handler panics recovered as grpc_recovery does; two builds: -race (reports parsed, de-duplicated by entry-point/top-function pair and classified: a race between a query and execution inside the runtime's map routines or with the query as writer, or a map write race between two queries, is a violation; stale scalar reads are counted only) and plain at GOMAXPROCS 2/8/16 (real fatal errors kill the supervised child = violation; execution parked forever in a sync wait, decided from a goroutine dump, = violation); every block is re-executed by an undisturbed shadow instance and must give identical responses and app hash; one evaluation = one block executed under query load; distinct = (query kind x execution phase) overlaps actually observed plus distinct race pairs",
+		Rule:        "one case = one generated history (pool creation, orders added/filled/cancelled, delegations, stake recalculation, coin creation, commits) executed on one goroutine while 6-24 goroutines issue read-only API queries (17 kinds: Address(es), Candidate(s), CoinInfo, SwapPool(s), LimitOrders, LimitOrdersOfPool, BestTrade route search, the three estimates, Frozen, WaitList, Export, raw accessors) on the live state, handler panics recovered as grpc_recovery does; two builds: -race (reports parsed, de-duplicated by entry-point/top-function pair and classified: a race between a query and execution inside the runtime's map routines or with the query as writer, or a map write race between two queries, is a violation; stale scalar reads are counted only) and plain at GOMAXPROCS 2/8/16 (real fatal errors kill the supervised child = violation; execution parked forever in a sync wait, decided from a goroutine dump, = violation); every block is re-executed by an undisturbed shadow instance and must give identical responses and app hash; one evaluation = one block executed under query load; distinct = (query kind x execution phase) overlaps actually observed plus distinct race pairs",
 		Assumptions: []string{"races need both accesses to occur in one run; pairs never co-scheduled stay unseen", "a wrong or panicking API answer is outside the property and only counted"},
-		MinEval: 400, MinDistinct: 40,
+		MinEval:     400, MinDistinct: 40,
 	})
+}
+
+// repoFrames returns the first n frames of the repository below the panic in a stack dump.
+func repoFrames(stack string, n int) string {
+	var out []string
+	past := false
+	for _, ln := range strings.Split(stack, "\n") {
+		if strings.HasPrefix(ln, "panic(") {
+			past = true
+			continue
+		}
+		if !past || strings.HasPrefix(ln, "\t") {
+			continue
+		}
+		if i := strings.Index(ln, "minter-go-node/"); i >= 0 {
+			f := ln[i+len("minter-go-node/"):]
+			if j := strings.LastIndex(f, "("); j > 0 {
+				f = f[:j]
+			}
+			out = append(out, f)
+			if len(out) == n {
+				break
+			}
+		}
+	}
+	return strings.Join(out, "<-")
 }
